@@ -182,6 +182,8 @@ type propResult struct {
 }
 
 func runProperty(prop string, pe *PropEntry, kf *KnownFindings, repo, vd string, timeout int, tier string, seed int, verbose bool) *propResult {
+	coverTotal, coverReach := 0, 0
+	var coverUnreach []string
 	res := &propResult{Prop: prop, Tier: tier, Seed: seed, BySolver: map[string]int{}, Extra: map[string]interface{}{}}
 	res.Cmd = fmt.Sprintf("govc check -property %s -tier %s (VC generation over go/ssa from %s; z3-new 5.1.0, z3 4.8.12, cvc5 1.0.3 raced per obligation, %ds)", prop, tier, repo, timeout)
 	fail := func(name, why string) {
@@ -212,7 +214,7 @@ func runProperty(prop string, pe *PropEntry, kf *KnownFindings, repo, vd string,
 			byShort[unitShortName(k)] = sp
 		}
 	}
-	opts := UnitOpts{CheckFrames: !pe.NoFrames, CheckLocks: pe.CheckLocks}
+	opts := UnitOpts{CheckFrames: !pe.NoFrames, CheckLocks: pe.CheckLocks, CoverBlocks: tier == "thorough"}
 	for _, un := range pe.Units {
 		sp := byShort[un]
 		if sp == nil {
@@ -309,6 +311,18 @@ func runProperty(prop string, pe *PropEntry, kf *KnownFindings, repo, vd string,
 			if !ownsObligation(pe, u.Name, o.Name) {
 				continue
 			}
+			if o.Kind == "cover" {
+				// informational reachability probes of the thorough tier
+				res.SolverTime += o.Seconds
+				coverTotal++
+				switch o.Cover {
+				case "unreachable":
+					coverUnreach = append(coverUnreach, o.Name)
+				case "reachable":
+					coverReach++
+				}
+				continue
+			}
 			or := obligReport{Name: o.Name, Kind: o.Kind, Status: o.Status, Solver: o.Solver, Seconds: o.Seconds, Src: o.Src, Parts: len(o.Parts), Bounded: o.Bounded}
 			res.SolverTime += o.Seconds
 			if o.Bounded {
@@ -376,6 +390,15 @@ func runProperty(prop string, pe *PropEntry, kf *KnownFindings, repo, vd string,
 	}
 	if len(enumDone) > 0 {
 		res.Extra["enumerated_side_conditions"] = enumDone
+	}
+	if coverTotal > 0 {
+		res.Extra["block_cover_probes"] = map[string]interface{}{"probed": coverTotal, "proved_reachable": coverReach, "proved_unreachable": coverUnreach,
+			"note": "blocks of the units that cannot be reached under the contracts' preconditions (vacuous obligations behind them): expected for error paths the preconditions exclude; anything else is a hole in a precondition"}
+		if verbose {
+			for _, u := range coverUnreach {
+				fmt.Println("unreachable:", u)
+			}
+		}
 	}
 	if res.Obligations < pe.MinObligations {
 		fail("vacuity:obligation-count", fmt.Sprintf("only %d obligations generated, committed minimum is %d (front-end failure?)", res.Obligations, pe.MinObligations))
